@@ -9,6 +9,8 @@ import (
 	"fmt"
 	"strings"
 
+	"example.com/scion-time/net/nts"
+	"example.com/scion-time/net/ntske"
 	"example.com/scion-time/net/udp"
 
 	"verifharness/lib"
@@ -144,8 +146,33 @@ func genUDP(c *lib.Ctx) {
 	}
 }
 
+// probeLongCookie evaluates the recorded known finding (known_findings.json): a cookie longer
+// than 896 bytes in the client's pool — only a key-exchange or NTP server the client has
+// authenticated can put one there — makes the request encoder panic.
+func probeLongCookie(c *lib.Ctx) {
+	for _, l := range []int{896, 897, 1000} {
+		ans := lib.Try(func() string {
+			d := ntske.Data{C2sKey: make([]byte, 32), S2cKey: make([]byte, 32), Cookie: [][]byte{make([]byte, l)}, Algo: ntske.AES_SIV_CMAC_256}
+			pkt, _ := nts.NewRequestPacket(d)
+			buf := make([]byte, 48)
+			nts.EncodePacket(&buf, &pkt)
+			return fmt.Sprintf("ok %d", len(buf))
+		})
+		c.Count(fmt.Sprintf("probe:long-cookie:%d:%s", l, strings.Fields(ans)[0]))
+		if strings.HasPrefix(ans, "panic") && l > 896 {
+			c.Fail("C08:known:client-request-with-cookie-longer-than-896-bytes", "NTS client: a cookie longer than 896 bytes in the pool makes the request encoder panic",
+				[]string{fmt.Sprintf("(c11 ops) cl.init [<%d-byte cookie>] <c2s> <s2c> ; cl.request <hdr>", l)}, map[string]any{"cookie_len": l, "answer": ans})
+			return
+		}
+		if strings.HasPrefix(ans, "panic") {
+			c.Fail("C08:client-request-encoder-panics", "NTS client: request encoder panics on a cookie that fits", nil, map[string]any{"cookie_len": l, "answer": ans})
+		}
+	}
+}
+
 func gen(c *lib.Ctx) {
 	genUDP(c)
+	probeLongCookie(c)
 }
 
 func main() { lib.Main(exec, gen) }
